@@ -21,7 +21,7 @@ use simcore::rng::Rng;
 use simcore::spec::{gen_graph_spec, shrink_graph_spec, GraphSpec};
 use std::sync::{Arc, Mutex};
 
-pub const KTYPES: [&str; 7] = ["Kmer4", "Kmer6", "Kmer8", "Kmer16", "KmerK31", "Kmer32", "Kmer48"];
+pub const KTYPES: [&str; 14] = ["Kmer4", "Kmer5", "Kmer6", "Kmer8", "Kmer12", "Kmer14", "Kmer16", "Kmer20", "Kmer24", "KmerK31", "Kmer32", "Kmer40", "Kmer48", "Kmer64"];
 
 #[derive(Clone, Debug, Serialize, Deserialize, PartialEq)]
 pub enum Sched {
@@ -339,12 +339,19 @@ impl Harness for C19 {
         type KmerK31 = VarIntKmer<u64, K31>;
         match c.graph.ktype.as_str() {
             "Kmer4" => run_k::<Kmer4>(c, rec),
+            "Kmer5" => run_k::<Kmer5>(c, rec),
             "Kmer6" => run_k::<Kmer6>(c, rec),
             "Kmer8" => run_k::<Kmer8>(c, rec),
+            "Kmer12" => run_k::<Kmer12>(c, rec),
+            "Kmer14" => run_k::<Kmer14>(c, rec),
             "Kmer16" => run_k::<Kmer16>(c, rec),
+            "Kmer20" => run_k::<Kmer20>(c, rec),
+            "Kmer24" => run_k::<Kmer24>(c, rec),
             "KmerK31" => run_k::<KmerK31>(c, rec),
             "Kmer32" => run_k::<Kmer32>(c, rec),
+            "Kmer40" => run_k::<Kmer40>(c, rec),
             "Kmer48" => run_k::<Kmer48>(c, rec),
+            "Kmer64" => run_k::<Kmer64>(c, rec),
             o => panic!("k-mer type {} not in list", o),
         }
     }
